@@ -335,7 +335,7 @@ class HObj(object):
     """heap object. kind in frame|list|set|dict|inst|iter"""
     __slots__ = ('kind', 'vars', 'parts', 'ci', 'fields', 'havoc',
                  'pc_len', 'loops_len', 'site', 'parent', 'fnode', 'module',
-                 'self_cls')
+                 'self_cls', 'reorder')
 
     def __init__(self, kind):
         self.kind = kind
@@ -351,6 +351,7 @@ class HObj(object):
         self.fnode = None
         self.module = None
         self.self_cls = None
+        self.reorder = ()       # 'sorted' / 'sort' / 'reverse' applied
 
     def copy(self):
         o = HObj(self.kind)
@@ -366,6 +367,7 @@ class HObj(object):
         o.fnode = self.fnode
         o.module = self.module
         o.self_cls = self.self_cls
+        o.reorder = self.reorder
         return o
 
     def concrete(self):
